@@ -466,15 +466,18 @@ def real_tokenize(src):
     return [[int(t.catcode), [ord(ch) for ch in str(t)]] for t in Tokenizer(src, _TOKCTX[0])]
 
 
-def engine_case(prog, style):
-    src = EL.to_source(prog, style)
+def engine_case(prog, style, table=None):
+    src = EL.to_source(prog, style, table) if table else EL.to_source(prog, style)
     try:
         toks = real_tokenize(src)
     except Exception as e:      # a broken Tokenizer is C01's business: the case is dropped here
         return None
     names = [n for n in EL.names_in(toks) if n not in EL.PRIMS]
     cnames = [(EL.fcnt(c) if style == 'f' else ML.cntname(c)) for c in ML.counters_used(prog)]
-    return dict(kind='engine', toks=toks, names=names, cnames=cnames, prog=prog, src=src, style=style)
+    c = dict(kind='engine', toks=toks, names=names, cnames=cnames, prog=prog, src=src, style=style)
+    if table:
+        c['table'] = {str(k): v for k, v in table.items()}
+    return c
 
 
 def engine_streams(rng, tier, boost):
@@ -491,6 +494,17 @@ def engine_streams(rng, tier, boost):
     for _ in range((300 if q else 3000) * boost):
         f1 = rng.random() < 0.5
         out.append(('print', dict(kind='print', prog=EL.gen_prog(rng, f1_only=f1, max_params=rng.choice([3, 9]), delims=False, allow_nested=not f1))))
+    for _ in range((150 if q else 2000) * boost):
+        # printing under a delimiter assignment (MacroPrint.Delims given as a table): the printer twin, the fragment twin and, for
+        # programs of the fragment (where printing by parameter count is faithful), the engine on the printed tokens
+        prog = EL.gen_prog(rng, max_params=rng.choice([3, 9]), delims=False)
+        table = EL.gen_table(rng, prog)
+        EL.fit_to_table(prog, table)
+        out.append(('print-delims', dict(kind='print', prog=prog, table={str(k): v for k, v in table.items()})))
+        if table and EL.in_f2(prog, table) and EL.expandafter_ok(prog, table):
+            c = engine_case(prog, 'f', table)
+            if c is not None:
+                out.append(('engine-delims', c))
     for toks in EL.all_small(2 if q else 3):
         out.append(('engine-small', dict(kind='engine', toks=toks, names=[n for n in EL.names_in(toks) if n not in EL.PRIMS])))
     return out
@@ -516,12 +530,14 @@ def describe(case):
     if case['kind'] == 'engine':
         return dict(tokens=EL.show(case['toks']), source=case.get('src'))
     if case['kind'] == 'print':
-        return dict(source=EL.to_source(case['prog'], 'f'))
+        return dict(source=EL.to_source(case['prog'], 'f', case_table(case)), table=case.get('table'))
     return to_source2(case['prog'])[0]
 
 
 def model_input(case):
     if case['kind'] == 'print':
+        if case.get('table') is not None:
+            return [4, EL.table_wire(case_table(case) or {}), ML.w_nodes(case['prog'])]
         return [3, ML.w_nodes(case['prog'])]
     if case['kind'] == 'engine':
         x = [case['toks'], [[ord(ch) for ch in n] for n in case['names']]]
@@ -621,11 +637,18 @@ def run_engine(case):
     return [0, out, len(ctx.contexts), means]
 
 
+def case_table(case):
+    """the delimiter assignment of a case ({np: [delimiters]}; JSON keys are strings) or None"""
+    t = case.get('table')
+    return {int(k): v for k, v in t.items()} if t else None
+
+
 def run_impl(case):
     if case['kind'] == 'engine':
         return run_engine(case)
     if case['kind'] == 'print':
-        return [real_tokenize(EL.to_source(case['prog'], 'f')), 1 if EL.in_f1(case['prog']) else 0, 1 if EL.in_f2(case['prog']) else 0]
+        table = case_table(case)
+        return [real_tokenize(EL.to_source(case['prog'], 'f', table)), 1 if EL.in_f1(case['prog']) else 0, 1 if EL.in_f2(case['prog'], table) else 0]
     if case['kind'] in ('def', 'nc'):
         from plasTeX.TeX import TeX, TeXDocument
         doc = TeXDocument()
@@ -664,6 +687,10 @@ def nontrivial(case, io):
 
 def tags(case, io):
     t = [case['kind']]
+    if case['kind'] == 'print' and case.get('table') is not None:
+        tb = case_table(case)
+        src = EL.to_source(case['prog'], 'f', tb)
+        return t + ['print-delims:' + ('F3' if EL.in_f2(case['prog'], tb) else 'beyond-F3') + ('-delimited' if any(ch in src for ch in '.,;:!') else '')]
     if case['kind'] == 'print':
         return t + ['print:F1' if EL.in_f1(case['prog']) else (('print:F3-nested' if EL.has_nested_def(case['prog']) else 'print:F2') if EL.in_f2(case['prog']) else 'print:beyond-F3')]
     if case['kind'] == 'engine':
@@ -671,10 +698,12 @@ def tags(case, io):
             t.append('engine:impl-raises')
         if isinstance(io, list) and io[:1] == ['skip']:
             t.append('engine:skipped')
+        if case.get('table'):
+            t.append('engine:delims' + ('-delimited' if any(ch in (case.get('src') or '') for ch in '.,;:!') else ''))
         if case.get('prog') is not None:
             if EL.has_expandafter(case['prog']):
                 t.append('engine:expandafter' + ('' if EL.in_f2(case['prog']) else '-beyond-F3'))
-            t.append('engine:F1' if EL.in_f1(case['prog']) else (('engine:F3-nested' if EL.has_nested_def(case['prog']) else 'engine:F2') if EL.in_f2(case['prog']) else 'engine:beyond-F3'))
+            t.append('engine:F1' if EL.in_f1(case['prog']) else (('engine:F3-nested' if EL.has_nested_def(case['prog']) else 'engine:F2') if EL.in_f2(case['prog'], case_table(case)) else 'engine:beyond-F3'))
         return t
     if case['kind'] == 'def':
         t.append('params=%d' % sum(1 for x in case['args'] if x == HASH))
@@ -750,7 +779,7 @@ def shrink(case):
         if case.get('prog') is not None:
             import props.C03 as C03
             for v in C03.shrink(dict(kind='prog', prog=case['prog'])):
-                c = engine_case(v['prog'], case.get('style', 'ml'))
+                c = engine_case(v['prog'], case.get('style', 'ml'), case_table(case))
                 if c is not None:
                     yield c
         else:
